@@ -175,8 +175,8 @@ struct M {
 };
 struct Content { bool unset; size_t len; int fam; };
 
-enum OpT { SET, SETZ, SETNUL, SETOVER, SETNULL, COPY_AB, COPY_BA, COPY_AA, COPY_ANULL, ASSIGN_AB, SELF, CLONE_TRAITS, CLONE_CXX };
-static const char *opname[] = { "set", "set(strlen)", "set(embedded NUL)", "set(over-long)", "set(NULL,n)", "copy", "copy", "copy(self)", "copy(NULL)", "operator=", "set(own data)", "traits-init(copy)", "copy-constructor" };
+enum OpT { SET, SETZ, SETNUL, SETOVER, SETNULL, COPY_AB, COPY_BA, COPY_AA, COPY_ANULL, ASSIGN_AB, SELF, CLONE_TRAITS, CLONE_CXX, ASSIGN_AA, CTOR_BACK, SETNAME_OWN };
+static const char *opname[] = { "set", "set(strlen)", "set(embedded NUL)", "set(over-long)", "set(NULL,n)", "copy", "copy", "copy(self)", "copy(NULL)", "operator=", "set(own data)", "traits-init(copy)", "copy-constructor", "operator=(self)", "copy-construct+assign back", "set_name(own name)" };
 struct OpInst { int t; long a; };
 
 struct Alphabet {
@@ -224,6 +224,10 @@ static void build_alphabet(Tier t, size_t capA, size_t capB, Alphabet &al)
 	for (int mode = 0; mode < 3; ++mode) al.ops.push_back(OpInst{SELF, mode});
 	al.ops.push_back(OpInst{CLONE_TRAITS, 0});
 	al.ops.push_back(OpInst{CLONE_CXX, 0});
+	// C++ self references: a = a through a reference (item<T>: its own identifier base), T(a); a = T, set_name(name())
+	al.ops.push_back(OpInst{ASSIGN_AA, 0});
+	al.ops.push_back(OpInst{CTOR_BACK, 0});
+	for (int form = 0; form < 2; ++form) al.ops.push_back(OpInst{SETNAME_OWN, form});
 }
 
 // ------------------------------------------------------------------ observation helpers
@@ -255,9 +259,9 @@ static std::string imgdesc(const mpt::identifier *id)
 	return s;
 }
 
-enum Cnt { C_CMP_EQ, C_CMP_NE, C_CMP_NONTEXT, C_CMP_NODE, C_INEQ_EQ, C_INEQ_NE, C_SETNAME, C_REFUSED, C_OWN, C_CLONE_T, C_CLONE_X, C_LONGEST, C_NOT_ENABLED, C_NEW_BOUND, C_EXPANDED, C_NCNT };
+enum Cnt { C_CMP_EQ, C_CMP_NE, C_CMP_NONTEXT, C_CMP_NODE, C_INEQ_EQ, C_INEQ_NE, C_SETNAME, C_REFUSED, C_OWN, C_CLONE_T, C_CLONE_X, C_SELFCXX, C_LONGEST, C_NOT_ENABLED, C_NEW_BOUND, C_EXPANDED, C_NCNT };
 static const char *cntname[] = { "compare:equal", "compare:unequal", "compare:nontext", "compare:node_locate", "inequal:equal", "inequal:different", "via identifier::set_name", "refused:over-long",
-                                 "set:own data", "clone:traits", "clone:c++", "path stored the longest permitted content (65535 bytes)", "op not enabled in this state",
+                                 "set:own data", "clone:traits", "clone:c++", "c++ self assignment / own name", "path stored the longest permitted content (65535 bytes)", "op not enabled in this state",
                                  "new states at the depth bound (not expanded)", "states beyond the initial ones (expanded)" };
 struct Tally {
 	uint64_t c[C_NCNT]; uint64_t path[2][3][3];
@@ -396,7 +400,8 @@ struct Sys {
 		case SETNULL: n = op.a; refuse = op.a > 65535; break;
 		case COPY_AB: case ASSIGN_AB: n = mb.size(); break;
 		case COPY_BA: n = ma.size(); pre = stclass(mb.size(), b.cap); cap = b.cap; break;
-		case COPY_AA: n = ma.size(); break;
+		case COPY_AA: case ASSIGN_AA: case CTOR_BACK: n = ma.size(); break;
+		case SETNAME_OWN: n = ma.size() ? (op.a ? ma.size() : strlen(ma.b->c_str()) + 1) : 0; break;
 		case COPY_ANULL: n = 0; break;
 		case SELF: n = ma.size() ? (op.a == 0 ? ma.size() - 1 : (op.a == 1 ? 2 : ma.size())) : 0; break;
 		case CLONE_TRAITS: case CLONE_CXX: n = ma.size(); pre = "fresh16"; cap = 12; break;
@@ -419,7 +424,7 @@ struct Sys {
 		bool destA = true, destB = false;
 		uint64_t imgA = 0, imgB = 0;
 		if (op.t == COPY_BA) { destA = false; destB = true; }
-		if (op.t == COPY_AA || op.t == CLONE_TRAITS || op.t == CLONE_CXX) destA = false;
+		if (op.t == COPY_AA || op.t == ASSIGN_AA || op.t == CLONE_TRAITS || op.t == CLONE_CXX) destA = false;
 		if (!destA) imgA = image(a.id);
 		if (!destB) imgB = image(b.id);
 		switch (op.t) {
@@ -487,6 +492,34 @@ struct Sys {
 			}
 			++tally->c[C_OWN];
 			break; }
+		case ASSIGN_AA: {
+			// self assignment through a reference; item<T> is assigned its own identifier base
+			const mpt::identifier &self = *a.id;
+			if (a.kind == ITEM32) { mpt::item<mpt::metatype> *it = (mpt::item<mpt::metatype> *) a.obj; LIB((*it = self, 0)); }
+			else LIB((*a.id = self, 0));
+			++tally->c[C_SELFCXX];
+			break; }
+		case CTOR_BACK: {
+			mpt::identifier *t = LIB(new mpt::identifier(*a.id));
+			std::string m = memcheck(1 + (ma.size() > t->_max));
+			if (!m.empty()) return m;
+			LIB((*a.id = *t, 0));
+			LIB((delete t, 0));
+			++tally->c[C_SELFCXX];
+			break; }
+		case SETNAME_OWN: {
+			size_t len = ma.size() - 1, nl = op.a ? len : strlen(ma.b->c_str());
+			const char *own = LIB(a.id->name());
+			if (!own) { e = "compare\ttext inline: A: identifier::name() is NULL for text content"; break; }
+			bool okc = LIB(a.id->set_name(own, op.a ? (int) len : -1));
+			if (!okc) e = "refused\tset_name() with the identifier's own name() was refused";
+			else if (nl != len) {
+				std::string want(*ma.b, 0, nl); want.push_back(0);
+				if (want == bytes(FP, nl).stored) set_model(al, ma, UTF8, FP, nl);
+				else { static std::set<std::string> other2; ma.b = &*other2.insert(want).first; ma.cid = -1; }
+			}
+			++tally->c[C_SELFCXX];
+			break; }
 		case CLONE_TRAITS: case CLONE_CXX: {
 			H th; size_t extra = 0;
 			void *mem = 0;
@@ -516,8 +549,8 @@ struct Sys {
 		std::string m = memcheck();
 		if (!m.empty()) return m;
 		if (!e.empty()) return e;
-		const char *who = (op.t == COPY_AB || op.t == ASSIGN_AB || op.t == COPY_BA || op.t >= CLONE_TRAITS) ? "source" : "bystander";
-		if (!destA && image(a.id) != imgA) return fmt("%s\tA was changed although it is only the %s of this operation", who, op.t == COPY_AA ? "target of a self copy" : "source");
+		const char *who = (op.t == COPY_AB || op.t == ASSIGN_AB || op.t == COPY_BA || op.t == CLONE_TRAITS || op.t == CLONE_CXX) ? "source" : "bystander";
+		if (!destA && image(a.id) != imgA) return fmt("%s\tA was changed although it is only the %s of this operation", who, (op.t == COPY_AA || op.t == ASSIGN_AA) ? "source and target of a self copy / self assignment" : "source");
 		if (!destB && image(b.id) != imgB) return fmt("%s\tB was changed although it is %s", who, who[0] == 's' ? "only the source of this operation" : "not involved in this operation");
 		e = light(a, ma, "A"); if (!e.empty()) return e;
 		return light(b, mb, "B");
@@ -540,6 +573,9 @@ static std::string opdesc(const Alphabet &al, const OpInst &op)
 	case SELF: return op.a == 0 ? "set(A, data(A), len-1)" : (op.a == 1 ? "set(A, data(A), 1)" : "set(A, data(A), len)");
 	case CLONE_TRAITS: return "traits->init(T, A); traits->fini(T)";
 	case CLONE_CXX: return "identifier T(A); ~T";
+	case ASSIGN_AA: return "A = A (identifier::operator= through a reference; item<T>: own identifier base)";
+	case CTOR_BACK: return "identifier T(A); A = T; ~T";
+	case SETNAME_OWN: return op.a ? "A.set_name(A.name(), len)" : "A.set_name(A.name())";
 	}
 	return "?";
 }
@@ -635,7 +671,7 @@ static void pair_body(Run &r, PairJob &pj, Ctx &x)
 	bool last_nontrivial = false, dirtyA = false, dirtyB = false;
 	for (int depth = 1;; ++depth) {
 		const OpInst &op = al.ops[oi];
-		if (op.t == SELF && (s.ma.cs != UTF8 || s.ma.size() < 2)) { ++pj.tally.c[C_NOT_ENABLED]; break; }
+		if ((op.t == SELF && (s.ma.cs != UTF8 || s.ma.size() < 2)) || (op.t == SETNAME_OWN && s.ma.cs != UTF8)) { ++pj.tally.c[C_NOT_ENABLED]; break; }
 		std::string pre;
 		if (r.replaying) { pre = fmt(" [A %s, B %s]", mdesc(s.ma, s.a.cap).c_str(), mdesc(s.mb, s.b.cap).c_str()); r.note("%s ; %s%s", where().c_str(), opdesc(al, op).c_str(), pre.c_str()); }
 		std::string cls = s.classify(al, op);        // state class before the op
@@ -647,7 +683,7 @@ static void pair_body(Run &r, PairJob &pj, Ctx &x)
 		if (!res.empty()) { report(r, cls, res, where()); return; }
 		{
 			int postA = clsidx(s.ma.size(), s.a.cap);
-			bool replaces = op.t == SET || op.t == SETZ || op.t == SETNUL || (op.t == SETNULL && op.a <= 65535) || op.t == COPY_AB || op.t == ASSIGN_AB || op.t == SELF;
+			bool replaces = op.t == SET || op.t == SETZ || op.t == SETNUL || (op.t == SETNULL && op.a <= 65535) || op.t == COPY_AB || op.t == ASSIGN_AB || op.t == SELF || op.t == CTOR_BACK || op.t == SETNAME_OWN;
 			last_nontrivial = (preA == 2) != (postA == 2) || (preA == 2 && postA == 2 && replaces);
 			if (op.t <= SETNULL || op.t == SELF) ++pj.tally.path[0][preA][postA];
 			else if (op.t <= ASSIGN_AB && op.t != COPY_BA) ++pj.tally.path[1][preA][postA];
@@ -657,7 +693,7 @@ static void pair_body(Run &r, PairJob &pj, Ctx &x)
 		// complete content with the model, so image + content index identify the state.)
 		bool knownA = s.ma.cid >= 0 && image(s.a.id) == al.knownA[s.ma.cid], knownB = s.mb.cid >= 0 && image(s.b.id) == al.knownB[s.mb.cid];
 		bool known = knownA && knownB;
-		if (op.t == COPY_BA) dirtyB = true; else if (op.t != COPY_AA && op.t < CLONE_TRAITS) dirtyA = true;
+		if (op.t == COPY_BA) dirtyB = true; else if ((op.t != COPY_AA && op.t < CLONE_TRAITS) || op.t == CTOR_BACK || op.t == SETNAME_OWN) dirtyA = true;
 		bool expand = !known && depth < DEPTH;
 		if (!known && !expand) ++pj.tally.c[C_NEW_BOUND];
 		if (expand) {
@@ -763,7 +799,7 @@ static void declare(Run &r, bool pair)
 	for (const char *k : {"path set:unset->inline", "path set:unset->ext", "path set:inline->inline", "path set:inline->ext", "path set:ext->inline", "path set:ext->ext", "path set:ext->unset", "path set:inline->unset",
 	                      "path copy:unset->inline", "path copy:unset->ext", "path copy:inline->inline", "path copy:inline->ext", "path copy:ext->inline", "path copy:ext->ext", "path copy:ext->unset", "path copy:inline->unset",
 	                      "path stored the longest permitted content (65535 bytes)", "refused:over-long", "compare:equal", "compare:unequal", "compare:nontext", "compare:node_locate", "inequal:equal", "inequal:different",
-	                      "set:own data", "clone:traits", "clone:c++", "via identifier::set_name", "states beyond the initial ones (expanded)"})
+	                      "set:own data", "clone:traits", "clone:c++", "c++ self assignment / own name", "via identifier::set_name", "states beyond the initial ones (expanded)"})
 		r.require(k);
 }
 
